@@ -434,6 +434,17 @@ class Env:
                                          stage_id=self.stage_ids[ref], signal_name=name,
                                          signal_data=data or {}, persistent=persistent))
 
+    def pause(self):
+        self.store.pause(self.wf_id, "verif")
+
+    def unpause(self):
+        from stabilize import Orchestrator
+        Orchestrator(self.queue, store=self.store).unpause(self.store.retrieve(self.wf_id))
+
+    def restart_stage(self, ref: str):
+        from stabilize import Orchestrator
+        Orchestrator(self.queue, store=self.store).restart(self.store.retrieve(self.wf_id), self.stage_ids[ref])
+
     def sweep_dlq(self):
         self.processor._check_dlq()
 
